@@ -7,6 +7,8 @@ import GLua.Proofs.LoweringValue4
 namespace GLua.Lowering
 open GLua.Compile GLua.MiniVM GLua.CondSpec
 
+variable [NumStruct]
+set_option linter.unusedSectionVars false
 variable {V : Type}
 
 /-- `TESTSET A B flip; JMP L`: when truthiness = (flip = 1) the value is copied to A and the jump is taken,
@@ -192,7 +194,7 @@ theorem auxDefault_sem (d : Dom V) (sub : ExpCtx → CState → Res) (st F : CSt
 /-- the expression-mode statement of `e` gives the hypothesis `auxDefault_sem` wants about `sub`. -/
 theorem hsub_of_exprSem (d : Dom V) (e : Cond) (he : ExprSem d e) (sub : ExpCtx → CState → Res) (reg : Nat)
     (hsubeq : ∀ ec' s, sub ec' s = comp e (.expr reg ec') s)
-    (st F : CState) (ρ γ : Nat → V) (v : V) (htop : st.regTop ≤ reg) (hloc : LocalsBelow reg e) (hreg : reg + 1 < 256)
+    (st F : CState) (ρ γ : Nat → V) (v : V) (htop : st.regTop ≤ reg) (hloc : LocalsBelow reg e) (hreg : reg + rh e < 256)
     (hev : eval d ρ γ e = some v) (hok : ∀ L, LabelOK F L) :
     ∀ ec', savereg ec' reg = reg → (sub ec' st).st.code <+: F.code → (sub ec' st).st.consts <+: F.consts →
       (∀ L, st.labelId ≤ L → L < (sub ec' st).st.labelId → getLabelPc F L = getLabelPc (sub ec' st).st L) →
@@ -203,38 +205,57 @@ theorem hsub_of_exprSem (d : Dom V) (e : Cond) (he : ExprSem d e) (sub : ExpCtx 
   rw [hsv] at hv1 hd1
   exact ⟨ρ1, hr1, hv1, fun x hx => hd1 x hx (by omega)⟩
 
-theorem auxSem_ev (d : Dom V) (id : Nat) : AuxSem d (.ev id) := by
-  intro st F reg ec thenl elsel hasnext lb b ρ γ v H hloc hev hE hK hlab
-  simp only [comp] at hE hK hlab ⊢
+/-- an operand that goes through the default case of compileLogicalOpExprAux (opaque atoms, not, unary minus, #,
+    arithmetic, concatenation): everything follows from its expression-mode statement. -/
+theorem auxSem_of_exprSem (d : Dom V) (e : Cond) (hfr : ExprFrame e) (hex : ExprSem d e)
+    (hnl : isLoc e = false) (hlog : e.isLogical = false)
+    (sub : Nat → ExpCtx → CState → Res)
+    (hcomp : ∀ st reg ec thenl elsel hasnext lb b,
+      comp e (.aux reg ec thenl elsel hasnext lb b) st = auxDefault (sub reg) reg ec thenl elsel hasnext lb b st)
+    (hsubeq : ∀ reg ec' s, sub reg ec' s = comp e (.expr reg ec') s) : AuxSem d e := by
+  intro st F reg ec thenl elsel hasnext lb b ρ γ v H hloc hreg hev hE hK hlab
+  rw [hcomp] at hE hK hlab ⊢
   refine auxDefault_sem d _ st F reg ec thenl elsel hasnext lb b ρ γ v H ?_ ?_ hE hK hlab
   · intro _ ec' a' b'
-    obtain ⟨_, _, hk3, _⟩ := constIndex_spec st (gname id)
-    simp [leafExpr]
-  · exact hsub_of_exprSem d (.ev id) (exprSem_leaf d (.ev id) rfl) _ reg (fun ec' s => by simp [comp]) st F ρ γ v H.htop hloc H.hreg hev H.allOK
+    rw [hsubeq]
+    exact (hfr st reg ec' H.htop).nomove hnl hlog a' b'
+  · exact hsub_of_exprSem d e hex _ reg (hsubeq reg) st F ρ γ v H.htop hloc hreg hev H.allOK
 
-theorem auxSem_not (d : Dom V) (c : Cond) (hfr : ExprFrame (.not c)) (hex : ExprSem d (.not c)) : AuxSem d (.not c) := by
-  intro st F reg ec thenl elsel hasnext lb b ρ γ v H hloc hev hE hK hlab
-  simp only [comp] at hE hK hlab ⊢
-  refine auxDefault_sem d _ st F reg ec thenl elsel hasnext lb b ρ γ v H ?_ ?_ hE hK hlab
-  · intro _ ec' a' b'
-    obtain ⟨_, _, _, hl⟩ := hfr st reg ec' H.htop
-    have := (hl rfl rfl).1 a' b'
-    simpa [comp] using this
-  · exact hsub_of_exprSem d (.not c) hex _ reg (fun ec' s => by simp [comp]) st F ρ γ v H.htop hloc H.hreg hev H.allOK
+theorem auxSem_ev (d : Dom V) (id : Nat) : AuxSem d (.ev id) :=
+  auxSem_of_exprSem d (.ev id) (ef_leaf (.ev id) rfl) (exprSem_leaf d (.ev id) rfl) rfl rfl
+    (fun reg ec' s => leafExpr (.ev id) reg ec' s) (fun _ _ _ _ _ _ _ _ => by simp only [comp]) (fun _ _ _ => by simp [comp])
 
+theorem auxSem_not (d : Dom V) (c : Cond) (hfr : ExprFrame (.not c)) (hex : ExprSem d (.not c)) : AuxSem d (.not c) :=
+  auxSem_of_exprSem d (.not c) hfr hex rfl rfl
+    (fun reg ec' s => notExpr c (fun s' => comp c (.expr reg ecnone0) s') reg ec' s)
+    (fun _ _ _ _ _ _ _ _ => by simp only [comp]) (fun _ _ _ => by simp only [comp])
 
-theorem aux_loc_eq (r : Nat) (st : CState) (reg : Nat) (ec : ExpCtx) (thenl elsel : Nat) (hasnext : Bool) (lb : LbLabels) (b : Bool) :
-    comp (.loc r) (.aux reg ec thenl elsel hasnext lb b) st =
-      if (elsel = lb.e ∧ thenl ≠ elsel) ∨ (thenl = lb.e ∧ hasnext = true) then
-        { st := emit (emit st (if savereg ec reg = r then .test (savereg ec reg) r (flipOf hasnext)
-                                else .testset (savereg ec reg) r (flipOf hasnext)))
-                  (.jmp ((if hasnext then thenl else elsel : Nat) : Int)), b := b }
-      else auxDefault (fun ec' s => leafExpr (.loc r) reg ec' s) reg ec thenl elsel hasnext lb b st := by
-  simp only [comp, ite_emit]
-  cases hasnext <;> rfl
+theorem auxSem_unm (d : Dom V) (c : Cond) (hfr : ExprFrame (.unm c)) (hex : ExprSem d (.unm c)) : AuxSem d (.unm c) :=
+  auxSem_of_exprSem d (.unm c) hfr hex rfl rfl
+    (fun reg ec' s => unmExpr (lnum (.unm c)) c.isLogical (fun s' => comp c (.expr reg ecnone0) s') reg ec' s)
+    (fun _ _ _ _ _ _ _ _ => by simp only [comp]) (fun _ _ _ => by simp only [comp])
+
+theorem auxSem_len (d : Dom V) (c : Cond) (hfr : ExprFrame (.len c)) (hex : ExprSem d (.len c)) : AuxSem d (.len c) :=
+  auxSem_of_exprSem d (.len c) hfr hex rfl rfl
+    (fun reg ec' s => unopExpr .len c.isLogical (fun s' => comp c (.expr reg ecnone0) s') reg ec' s)
+    (fun _ _ _ _ _ _ _ _ => by simp only [comp]) (fun _ _ _ => by simp only [comp])
+
+theorem auxSem_arith (d : Dom V) (op : ArithOp) (l r : Cond) (hfr : ExprFrame (.arith op l r)) (hex : ExprSem d (.arith op l r)) :
+    AuxSem d (.arith op l r) :=
+  auxSem_of_exprSem d (.arith op l r) hfr hex rfl rfl
+    (fun reg ec' s => arithExpr (lnum (.arith op l r)) op (fun s' g => comp l (.expr g ecnone0) s')
+        (fun s' g => comp r (.expr g ecnone0) s') l.isLogical r.isLogical reg ec' s)
+    (fun _ _ _ _ _ _ _ _ => by simp only [comp]) (fun _ _ _ => by simp only [comp])
+
+theorem auxSem_concat (d : Dom V) (l r : Cond) (hfr : ExprFrame (.concat l r)) (hex : ExprSem d (.concat l r)) :
+    AuxSem d (.concat l r) :=
+  auxSem_of_exprSem d (.concat l r) hfr hex rfl rfl
+    (fun reg ec' s => concatExpr (1 + spine r) (fun s' g => comp l (.expr g ecnone0) s')
+        (fun s' g => comp r (.expr g ecnone0) s') reg ec' s)
+    (fun _ _ _ _ _ _ _ _ => by simp only [comp]) (fun _ _ _ => by simp only [comp])
 
 theorem auxSem_loc (d : Dom V) (r : Nat) : AuxSem d (.loc r) := by
-  intro st F reg ec thenl elsel hasnext lb b ρ γ v H hloc hev hE hK hlab
+  intro st F reg ec thenl elsel hasnext lb b ρ γ v H hloc hreg hev hE hK hlab
   have absT : ∀ {X : Prop}, d.truthy v = true → d.truthy v = false → X := fun h1 h2 => by rw [h1] at h2; cases h2
   have hv : v = ρ r := by simp only [eval, Option.some.injEq] at hev; exact hev.symm
   simp only [LocalsBelow] at hloc
@@ -330,6 +351,6 @@ theorem auxSem_loc (d : Dom V) (r : Nat) : AuxSem d (.loc r) := by
         Or.inl ⟨rfl, by rw [setReg_same, hv], fun x _ hs => setReg_other _ _ hs⟩
       exact ⟨_, _, hmove.trans hjmp, fun _ => Or.inl (JT_e he hexit), fun _ => Or.inl (JT_e hee hexit)⟩
     · refine auxDefault_sem d _ st F reg ec thenl elsel hasnext lb b ρ γ v H (fun h => absurd h hlast) ?_ hE hK hlab
-      exact hsub_of_exprSem d (.loc r) (exprSem_leaf d (.loc r) rfl) _ reg (fun ec' s => by simp [comp]) st F ρ γ v H.htop hloc H.hreg hev H.allOK
+      exact hsub_of_exprSem d (.loc r) (exprSem_leaf d (.loc r) rfl) _ reg (fun ec' s => by simp [comp]) st F ρ γ v H.htop hloc hreg hev H.allOK
 
 end GLua.Lowering
